@@ -5,9 +5,11 @@ package main
 // symbolically; only the reflection-driven dispatch of the library is modelled.
 
 import (
+	"encoding/json"
 	"fmt"
 	"go/types"
 	"reflect"
+	"sort"
 	"strconv"
 	"strings"
 
@@ -30,6 +32,7 @@ type JNode struct {
 	kind jKind
 	b    *Term
 	num  *Term
+	tok  string // non-integer number literal (opaque)
 	s    *StrV
 	arr  []*JNode
 	keys []*StrV
@@ -73,7 +76,9 @@ func (n *JNode) collectTerms(out *[]*Term) {
 	case jBool:
 		*out = append(*out, n.b)
 	case jNum:
-		*out = append(*out, n.num)
+		if n.num != nil {
+			*out = append(*out, n.num)
+		}
 	case jStr:
 		*out = append(*out, n.s.n)
 		*out = append(*out, n.s.b...)
@@ -136,6 +141,9 @@ func (n *JNode) render(get func(*Term) uint64) string {
 		}
 		return "false"
 	case jNum:
+		if n.tok != "" {
+			return n.tok
+		}
 		return strconv.FormatInt(int64(get(n.num)), 10)
 	case jStr:
 		return jsonQuote(renderStr(n.s, get))
@@ -174,6 +182,9 @@ func jsonEq(a, b *JNode) *Term {
 	case jBool:
 		return Eq(a.b, b.b)
 	case jNum:
+		if a.tok != "" || b.tok != "" {
+			return BoolC(a.tok == b.tok)
+		}
 		return Eq(a.num, b.num)
 	case jStr:
 		return StrEq(a.s, b.s)
@@ -668,6 +679,9 @@ func (e *Exec) decode(th *Thread, n *JNode, start rv, depth int) Value {
 		}
 		return typeErr()
 	case jNum:
+		if n.tok != "" && isIntType(pv.t) {
+			return typeErr()
+		}
 		if isIntType(pv.t) {
 			w, _ := intWidth(pv.t)
 			e.store(pv.ptr, Extract(w-1, 0, n.num))
@@ -893,6 +907,17 @@ func registerJSON() {
 		e.nondets = append(e.nondets, NondetRec{Tag: tag, Kind: "json", json: n})
 		return &BytesV{json: n}
 	}
+	intrinsics["H.vJSONCanon"] = func(e *Exec, th *Thread, a []Value) Value {
+		b, _ := a[0].(*BytesV)
+		if b == nil || b.json == nil {
+			panic(e.unsupported("vJSONCanon of bytes without JSON tree"))
+		}
+		s, ok := b.json.canon()
+		if !ok {
+			panic(e.unsupported("vJSONCanon of a symbolic tree"))
+		}
+		return ConcStr(s)
+	}
 	// harness: parse a constant JSON text into a tree (fixtures)
 	intrinsics["H.vJSONText"] = func(e *Exec, th *Thread, a []Value) Value {
 		n, err := parseJSONText(strArg(a[0]))
@@ -1058,4 +1083,73 @@ func registerJSONMut() {
 			return &BytesV{json: root}
 		}
 	}
+}
+
+
+// canon renders a concrete JSON tree with sorted keys (what encoding/json produces for generic values).
+func (n *JNode) canon() (string, bool) {
+	switch n.kind {
+	case jNull:
+		return "null", true
+	case jBool:
+		if !n.b.IsConst() {
+			return "", false
+		}
+		if n.b.val == 1 {
+			return "true", true
+		}
+		return "false", true
+	case jNum:
+		if n.tok != "" {
+			return n.tok, true
+		}
+		if !n.num.IsConst() {
+			return "", false
+		}
+		return strconv.FormatInt(n.num.SVal(), 10), true
+	case jStr:
+		c, ok := n.s.Concrete()
+		if !ok {
+			return "", false
+		}
+		b, _ := json.Marshal(c)
+		return string(b), true
+	case jArr:
+		var ps []string
+		for _, c := range n.arr {
+			s, ok := c.canon()
+			if !ok {
+				return "", false
+			}
+			ps = append(ps, s)
+		}
+		return "[" + strings.Join(ps, ",") + "]", true
+	case jObj:
+		type kv struct{ k, v string }
+		var kvs []kv
+		for i := range n.keys {
+			if c := n.cond(i); !c.IsConst() {
+				return "", false
+			} else if c.IsFalse() {
+				continue
+			}
+			k, ok := n.keys[i].Concrete()
+			if !ok {
+				return "", false
+			}
+			v, ok := n.vals[i].canon()
+			if !ok {
+				return "", false
+			}
+			kb, _ := json.Marshal(k)
+			kvs = append(kvs, kv{string(kb), v})
+		}
+		sort.Slice(kvs, func(i, j int) bool { return kvs[i].k < kvs[j].k })
+		var ps []string
+		for _, e := range kvs {
+			ps = append(ps, e.k+":"+e.v)
+		}
+		return "{" + strings.Join(ps, ",") + "}", true
+	}
+	return "", false
 }
